@@ -6,6 +6,11 @@
 (*    recv(k)      evidence k arrives from a peer        (Reactor.Receive/AddEvidence) *)
 (*    cons(k)      consensus reports evidence k          (AddEvidenceFromConsensus)    *)
 (*                 - for k in RawItems with the stamp consensus gives, not the facts   *)
+(*    consb(k)     the same, but consensus saw the vote with the GREATER block key     *)
+(*                 first (k in OrdItems: the two votes name the same block hash with   *)
+(*                 different part-set hashes).  The evidence is the same: the driver   *)
+(*                 builds it with types.NewDuplicateVoteEvidence(first, second) as     *)
+(*                 consensus/state.go tryAddVote does                                  *)
 (*    check(l)     a proposed block carries list l       (validateBlock/CheckEvidence) *)
 (*    apply(l)     the next block, carrying l, is applied (ApplyBlock: check + Update) *)
 (*    restart      the node restarts                      (NewPool on the same db)     *)
@@ -21,6 +26,7 @@ CONSTANTS Items,      \* sequence of evidence records; histories name them by in
           RawItems,   \* those of them that consensus hands over with ITS stamp (time off the block time, total of
                       \* another set), as consensus/state.go tryAddVote does whenever its last-commit votes differ
                       \* from the block's: the pool has to state the facts of the height itself
+          OrdItems,   \* indices for which both arrival orders of the two votes at consensus are tried
           Lists,      \* the block evidence lists tried (sequences of indices)
           L0,         \* height of the pool at the start
           Depth
@@ -46,6 +52,7 @@ Step(r, a) == st' = r.st /\ hist' = Append(hist, a \o <<r.res, r.why>>)
 Next == /\ Len(hist) < Depth
         /\ \/ \E k \in Idx : Step(Recv(st, Items[k]), <<"recv", k>>) /\ UNCHANGED chain
            \/ \E k \in ConsItems : Step(ConsS(st, Items[k], k \in RawItems), <<"cons", k>>) /\ UNCHANGED chain
+           \/ \E k \in OrdItems : Step(ConsS(st, Items[k], k \in RawItems), <<"consb", k>>) /\ UNCHANGED chain
            \/ \E l \in Lists : Step(Check(st, EvList(l)), <<"check", l>>) /\ UNCHANGED chain
            \/ \E l \in Lists \cup {<<>>} :
                  /\ st.h < Top
@@ -75,10 +82,10 @@ Inv == OnlyRealEquivocators /\ AtMostOnceInChain /\ FreshWhenCommitted /\ Consis
 (* reachability companions: TLC must REFUTE them (checks/C19.py), otherwise the invariants above are vacuous *)
 NothingCommitted == Committed = {}
 NoExpiredPending == \A e \in st.pend : ~PExpired(st, e)          \* the window of the lazy pruning is reachable
-NoRawRestated == ~(st.raw = {} /\ \E j \in 1..Len(hist) : hist[j][1] = "cons" /\ hist[j][2] \in RawItems /\ hist[j][3] = "added"
+NoRawRestated == ~(st.raw = {} /\ \E j \in 1..Len(hist) : hist[j][1] \in {"cons", "consb"} /\ hist[j][2] \in RawItems /\ hist[j][3] = "added"
                      /\ EvH(Items[hist[j][2]]) > L0 /\ Items[hist[j][2]] \in st.pend)   \* reported raw, pending, restated
 NoPruning == ~(\E k \in Idx : Items[k] \notin st.pend \cup st.comm /\ \E j \in 1..Len(hist) :
-                   hist[j][1] \in {"recv", "cons"} /\ hist[j][2] = k /\ hist[j][3] = "added")   \* added, gone, never committed
+                   hist[j][1] \in {"recv", "cons", "consb"} /\ hist[j][2] = k /\ hist[j][3] = "added")   \* added, gone, never committed
 
 Obs(t) == [h |-> t.h, p |-> Ids(t.pend), c |-> Ids(t.comm), g |-> Ids(t.list), q |-> Ids(Proposable(t)), w |-> Ids(t.raw)]
 Dump == PrintT(ToJson([h |-> hist', o |-> Obs(st')]))
